@@ -15,6 +15,7 @@ P = "gix_worktree_stream::protocol::"
 
 def run(db, chk):
     archive_buffer_rule(db, chk)
+    entry_eof_rule(db, chk)
     m2b = tab.enum_to_const(db.one("^" + P + "mode_to_byte$"))
     b2m = tab.const_to_enum(db.one("^" + P + "byte_to_mode$"), 2)
     chk.floor("tables in mode_to_byte/byte_to_mode", len(m2b) + len(b2m), 2)
@@ -171,3 +172,40 @@ def archive_buffer_rule(db, chk):
                    "an entry's bytes are appended to the shared scratch buffer without clearing it first: the second such entry of an archive carries the first one's bytes as well",
                    c.where(), key="scratch-clear|%s" % f.name.split("::")[-1])
     chk.floor("copies into the shared scratch buffer", n, 2)
+
+
+def entry_eof_rule(db, chk):
+    """<Entry as io::Read>::read marks the entry as finished (`remaining = Some(0)`) when a read returned 0 bytes.  A read into an EMPTY buffer
+    returns 0 as well (io::Read allows it and it says nothing about the end): the end mark may be set only on paths where the caller's buffer is
+    known to be non-empty, otherwise the rest of the entry is dropped and the next header is parsed from the middle of its content."""
+    from gx.flow import comparisons, bool_switch_edges
+    f = db.one(r"^gix_worktree_stream::entry::<impl std::io::Read for gix_worktree_stream::Entry<'_>>::read$")
+    fl = Flow(f)
+    some0 = {pl[0] for bi, si, pl, rv, ln, mc in f.assigns() if len(pl) == 1 and rv[0] == "agg" and rv[3] == "Some" and len(rv[4]) == 1
+             and "p" not in rv[4][0] and rv[4][0].get("v") == 0}
+    marks = [(bi, ln) for bi, si, pl, rv, ln, mc in f.assigns() if pl and pl[-1] == ".remaining" and
+             ((rv[0] == "use" and "p" in rv[1] and rv[1]["p"][0] in some0) or (rv[0] == "agg" and rv[3] == "Some" and len(rv[4]) == 1 and rv[4][0].get("v") == 0))]
+    chk.floor("Entry::read: end-of-entry mark `remaining = Some(0)`", len(marks), 1)
+    good = set()
+    for cm in comparisons(f):
+        for side, other in (("a", "b"), ("b", "a")):
+            if "p" not in cm[side] or "p" in cm[other] or cm[other].get("v") != 0:
+                continue
+            if not any(r[0] == "arg" and r[1] == 2 for r in fl.roots(cm[side], stop_named=False)):
+                continue
+            e = bool_switch_edges(f, cm["block"], cm["res"])
+            if not e:
+                continue
+            te, fe = e
+            op = cm["op"] if side == "a" else {"Lt": "Gt", "Le": "Ge", "Gt": "Lt", "Ge": "Le"}.get(cm["op"], cm["op"])
+            if op in ("Ne", "Gt"):
+                good |= te
+            elif op in ("Eq", "Le"):
+                good |= fe
+    for c in f.calls():
+        if c.is_(r"::is_empty$") and c.args and any(r[0] == "arg" and r[1] == 2 for r in fl.roots(c.args[0], stop_named=False)):
+            good |= fl.result_edges(c)["bad"]
+    for bi, ln in marks:
+        chk.ob("end-mark-only-after-nonempty-read", "Entry::read remaining=Some(0)@%d" % ln, bool(good) and fl.cut_off([bi], good),
+               "the entry is marked as finished after a read that may have been given an empty buffer: `entry.read(&mut [])` drops the rest of the entry and derails next_entry()",
+               "%s:%d" % (f.file, ln), key="eof-mark|Entry::read")
